@@ -33,7 +33,7 @@ MANIFEST = {
                  'no verbatim payload + entity-decoded text contains the payload; JSON validity',
     'text': 'All strings over a 10-symbol markup/quote/brace alphabet up to length 3 (thorough 4) and format-string '
             'probes are injected into path, query string, Host, X-Forwarded-Host and X-Forwarded-Proto of requests ending '
-            'in 404, 405, 400, 500 and the last-resort page; the HTML token stream must equal the benign baseline and the '
+            'in 404, 405, 400, 500 and the last-resort page; PATH_INFO without a leading slash is a position of its own; the HTML token stream must equal the benign baseline and the '
             'JSON rendering must be valid JSON.',
     'note': 'Bounds: payload length <=4 over the listed alphabet + probes. Trusted: CPython html.parser / json.',
 }
